@@ -1177,6 +1177,10 @@ def to_str_value(world, ex, v):
         r = h(ex, v)
         if r is not NotImplemented:
             return r
+    if isinstance(v, Obj):
+        fi = world.repo.method(v.cls, "__str__")
+        if fi is not None:
+            return world.call(ex, world.wrap_func(fi, fi.module, bound=v), [], {}, None)
     return Opaque("str()")
 
 
